@@ -416,8 +416,21 @@ func (r *Real64) SmoothMax(x ConstVector, alpha ConstFloat64, t [2]Scalar) Scala
   // order of an earlier computation, which Reset() keeps
   r .Set(ConstFloat64(0.0))
   t[1].Set(ConstFloat64(0.0))
+  // the quotient does not change when all exponents are shifted by a
+  // constant: subtract the largest one, so that exp() neither overflows nor
+  // underflows for all entries at once
+  m := math.Inf(-1)
+  for i := 0; i < x.Dim(); i++ {
+    if v := alpha.GetFloat64()*x.ConstAt(i).GetFloat64(); v > m {
+      m = v
+    }
+  }
+  if math.IsInf(m, 0) {
+    m = 0.0
+  }
   for i := 0; i < x.Dim(); i++ {
     t[0].Mul(alpha, x.ConstAt(i))
+    t[0].Sub(t[0], ConstFloat64(m))
     t[0].Exp(t[0])
     t[1].Add(t[1], t[0])
     t[0].Mul(t[0], x.ConstAt(i))
